@@ -9,13 +9,16 @@
        (Engine/OwnershipReq.v) yields, per install / upgrade, the GETs of the ownership look-up;
        they must be exactly the first requests that reached the simulated API server, and the
        only ones when nothing else happened (refusal, dry run).
+   (5) Check-to-create races: the history run through the handler with an intruder
+       (Engine/OwnershipRace.v; without intruders it is the plain handler, and then the plain
+       comparison (1) is made as well).
    (3) The stamping model against the API server's store: after every successful install /
        upgrade of the history, each manifest resource is stored with every label and annotation
        the model computes for it (the forced three and whatever the chart rendered). *)
 From Coq Require Import List String Bool Arith.
 From Helm Require Import Common.Assoc Engine.Types Engine.Eff Engine.Ops Engine.Cluster Engine.Seq Engine.Stamp
-                         Engine.OwnershipReq.
-From Helm Require Export Run.RunEng.
+                         Engine.OwnershipReq Engine.OwnershipRace.
+From Helm Require Export Run.RunEng Engine.OwnershipRace.
 Import ListNotations.
 
 (* abbreviations the harness printer uses for recurring string literals (c07Abbrev in
@@ -134,7 +137,17 @@ Fixpoint steps_log_ok (hs : list hstep) (ms : list (world * outcome * list tev))
   | _, _, _ => false
   end.
 
-Record case := mkC7 { c7_eng : RunEng.case; c7_stamps : list stamp_obs; c7_logs : list (list (verb * string)) }.
+(* (5): per step, the intruder of that operation (Engine/OwnershipRace.v): the whole history is run
+   through the cluster handler that lets another actor create an object in the middle of an operation *)
+Record case := mkC7 { c7_eng : RunEng.case; c7_stamps : list stamp_obs; c7_logs : list (list (verb * string));
+                      c7_intr : list (option intruder) }.
+
+Definition no_intruder (c : case) : bool :=
+  forallb (fun i => match i with None => true | Some _ => false end) (c7_intr c).
+
+Definition case_ok_i (c : case) : bool :=
+  steps_agree (run_history_i RunEng.rn RunEng.ns (c_steps (c7_eng c)) (c7_intr c) (mkW [] (c_init (c7_eng c))))
+              (c_obs (c7_eng c)).
 
 Definition logs_ok (c : case) : bool :=
   steps_log_ok (c_steps (c7_eng c))
@@ -142,10 +155,11 @@ Definition logs_ok (c : case) : bool :=
                (c7_logs c).
 
 Definition case_ok7 (c : case) : bool :=
-  RunEng.case_ok (c7_eng c)
+  (if no_intruder c then RunEng.case_ok (c7_eng c) else true)
+  && case_ok_i c
   && forallb stamp_ok (c7_stamps c)
   && steps_stored_ok (c_steps (c7_eng c)) (c_obs (c7_eng c))
-  && logs_ok c.
+  && (if no_intruder c then logs_ok c else true).
 
 Fixpoint mismatches_from7 (i : nat) (cs : list case) : list nat :=
   match cs with
@@ -157,6 +171,6 @@ Definition mismatches := mismatches_from7 0.
 
 (* for debugging a mismatch: (engine agreement per step, stamps, store) *)
 Definition diag7 (c : case) :=
-  (RunEng.diag (c7_eng c), map stamp_ok (c7_stamps c),
+  (RunEng.diag (c7_eng c), case_ok_i c, map stamp_ok (c7_stamps c),
    steps_stored_ok (c_steps (c7_eng c)) (c_obs (c7_eng c)), logs_ok c,
    map (fun m => rq_gets (snd m)) (run_history_rq RunEng.rn RunEng.ns (c_steps (c7_eng c)) (mkW [] (c_init (c7_eng c))))).
